@@ -624,11 +624,23 @@ class ADEV(Pytree):
                             else:
                                 jvp = jax_autodiff.primitive_jvps.get(eqn.primitive)
                                 if not jvp:
-                                    msg = f"differentiation rule for '{eqn.primitive}' not implemented"
-                                    raise NotImplementedError(msg)
-                                primal_outs, tangent_outs = jvp(
-                                    flat_primals, canonical_tangents, **params
-                                )
+                                    # Primitives such as custom_jvp_call are
+                                    # differentiated by JAX's tracers rather than
+                                    # by a registered rule: differentiate the bind.
+                                    def _bind(*xs, _eqn=eqn, _params=params):
+                                        return _eqn.primitive.bind(*xs, **_params)
+
+                                    primal_outs, tangent_outs = jax.jvp(
+                                        _bind,
+                                        tuple(flat_primals),
+                                        tuple(
+                                            _instantiate_zero_tangents(canonical_tangents)
+                                        ),
+                                    )
+                                else:
+                                    primal_outs, tangent_outs = jvp(
+                                        flat_primals, canonical_tangents, **params
+                                    )
                                 tangent_outs = _instantiate_zero_tangents(tangent_outs)
 
                 if not eqn.primitive.multiple_results:
